@@ -228,13 +228,25 @@ def gen_rpu():
         if nlq_present:
             M['nlq_method_idc']='LinearDeadzone'; M['nlq_num_pivots_minus2']=0; M['nlq_pred_pivot_value']=pv
             mel = (cls=='7mel') or (R.random()<0.15)
+            # near-MEL: the MEL point with exactly one (field, component) moved off it — each of the seven
+            # fields must on its own turn the classification to FEL
+            near = None
+            if R.random()<0.2:
+                mel = True
+                near = (pick('nlq_offset','vdr_in_max_int','vdr_in_max','linear_deadzone_slope_int','linear_deadzone_slope','linear_deadzone_threshold_int','linear_deadzone_threshold'), R.randint(0,2))
             N={k:[0,0,0] for k in ('nlq_offset','vdr_in_max_int','vdr_in_max','linear_deadzone_slope_int','linear_deadzone_slope','linear_deadzone_threshold_int','linear_deadzone_threshold')}
             for c in range(3):
                 def ufield(ki,kf,force_i=None):
                     if t0:
-                        x = force_i if force_i is not None else uev(); w.ue(x); N[ki][c]=x
-                    y = 0 if (mel or L==0) else val(L); w.u(L,y); N[kf][c]=y
-                off = 0 if mel else val(10); w.u(10,off); N['nlq_offset'][c]=off
+                        x = force_i if force_i is not None else uev()
+                        if near==(ki,c): x = pick(0,2,5) if force_i==1 else pick(1,2,1000)
+                        w.ue(x); N[ki][c]=x
+                    y = 0 if (mel or L==0) else val(L)
+                    if near==(kf,c) and L>0: y = pick(1,(1<<L)-1,R.randint(1,(1<<L)-1))
+                    w.u(L,y); N[kf][c]=y
+                off = 0 if mel else val(10)
+                if near==('nlq_offset',c): off = pick(1,1023,R.randint(1,1023))
+                w.u(10,off); N['nlq_offset'][c]=off
                 ufield('vdr_in_max_int','vdr_in_max', 1 if mel else None)
                 ufield('linear_deadzone_slope_int','linear_deadzone_slope', 0 if mel else None)
                 ufield('linear_deadzone_threshold_int','linear_deadzone_threshold', 0 if mel else None)
@@ -328,6 +340,10 @@ def tags(J):
     if m:
         for c in m["curves"]:
             t.append("curve=%s/%d" % (c["mapping_idc"], c["num_pivots_minus2"] + 2))
+    if m and m.get("nlq"):
+        N = m["nlq"]
+        dev = [k for k in N for v in N[k] if v != (1 if k == "vdr_in_max_int" else 0)]
+        t.append("nlq=mel" if not dev else ("nlq=near-mel:" + dev[0] if len(dev) == 1 else "nlq=fel"))
     d = J.get("vdr_dm_data")
     if d:
         for k in ("cmv29_metadata", "cmv40_metadata"):
